@@ -43,6 +43,8 @@ import (
 	sigverifier "github.com/hyperledger/aries-framework-go/component/models/signature/verifier"
 	"github.com/hyperledger/aries-framework-go/component/models/verifiable"
 	vdrkey "github.com/hyperledger/aries-framework-go/component/vdr/key"
+	"github.com/hyperledger/aries-framework-go/pkg/didcomm/common/service"
+	"github.com/hyperledger/aries-framework-go/pkg/didcomm/protocol/decorator"
 	"github.com/hyperledger/aries-framework-go/pkg/didcomm/transport"
 	"github.com/hyperledger/aries-framework-go/spi/kms"
 	gojose "github.com/go-jose/go-jose/v3"
@@ -106,6 +108,7 @@ func newSyncWorld(thorough bool) *syncWorld {
 	sw.didKeySeeds()
 	sw.sdjwtSeeds()
 	sw.docSeeds()
+	sw.msgMapSeeds()
 
 	return sw
 }
@@ -699,6 +702,41 @@ func (s *syncWorld) sdHelperSeeds(name, cfi string) {
 	}})
 }
 
+// msgMapSeeds: service.ParseDIDCommMsgMap and the accessors of the message map, the first thing the inbound dispatcher,
+// the out-of-band attachment dispatch and message pickup do with a plaintext of another party.
+func (s *syncWorld) msgMapSeeds() {
+	run := func(in []byte) error {
+		m, err := service.ParseDIDCommMsgMap(in)
+		if err != nil {
+			return err
+		}
+
+		_ = m.Type()
+		_ = m.ID()
+		_ = m.ParentThreadID()
+		_, err = m.ThreadID()
+		_ = m.Metadata()
+		_ = m.Clone()
+
+		th := struct {
+			Thread *decorator.Thread `json:"~thread,omitempty"`
+		}{}
+
+		_ = m.Decode(&th)
+
+		return err
+	}
+
+	tpls := templates()
+
+	for _, proto := range protoOrder {
+		for i, t := range tpls[proto] {
+			s.add(&Seed{Name: fmt.Sprintf("msgmap.%s.%d", proto, i), Layer: "X", Kind: "json", Wire: []byte(t),
+				Targets: []Target{{"service.ParseDIDCommMsgMap", run}}})
+		}
+	}
+}
+
 // ---------- X: documents parsed by mostly third-party decoders (explored only) ----------
 
 const vcJSON = `{"@context":["https://www.w3.org/2018/credentials/v1","https://www.w3.org/2018/credentials/examples/v1"],
@@ -707,7 +745,7 @@ const vcJSON = `{"@context":["https://www.w3.org/2018/credentials/v1","https://w
 "issuanceDate":"2010-01-01T19:23:24Z","expirationDate":"2030-01-01T19:23:24Z",
 "credentialSubject":{"id":"did:example:ebfeb1f712ebc6f1c276e12ec21","degree":{"type":"BachelorDegree","name":"Bachelor of Science"}},
 "credentialStatus":{"id":"https://example.edu/status/24","type":"CredentialStatusList2017"},
-"credentialSchema":[],"evidence":[{"id":"https://example.edu/evidence/1","type":["DocumentVerification"]}],
+"credentialSchema":[{"id":"https://example.org/examples/degree.json","type":"JsonSchemaValidator2018"}],"evidence":[{"id":"https://example.edu/evidence/1","type":["DocumentVerification"]}],
 "termsOfUse":[{"type":"IssuerPolicy","id":"http://example.com/policies/credential/4"}],
 "refreshService":{"id":"https://example.edu/refresh/3732","type":"ManualRefreshService2018"}}`
 
